@@ -6,9 +6,12 @@ recipe and every order k in 0..dim+1 the check
 
   * evaluates the clauses of C13 on what `xgi.boundary_matrix` / `xgi.hodge_laplacian` return (shape, column
     support = faces with ±1, B_{k-1} @ B_k == 0 exactly, L_k symmetric and equal to B_k^T B_k + B_{k+1} B_{k+1}^T,
-    x^T L_k x >= -1e-9, dim ker L_0 (exact rank over fractions) == number of connected components);
-  * compares matrix, row keys and column keys entry by entry with the Lean model (Drivers/C13.lean), and checks
-    that the complex the implementation built satisfies the hypotheses `WF` of the theorems (the model decides it).
+    x^T L_k x >= -1e-9, dim ker L_0 (exact rank over fractions) == number of connected components, counted by a
+    union-find over all simplices and by `xgi.number_connected_components` of the 1-skeleton);
+  * compares matrix, row keys and column keys entry by entry with the Lean model (Drivers/C13.lean), compares the
+    model's component count `nComponents` (proved equal to dim ker L_0: `ker_L0_finrank`) with both counts and with
+    the exact kernel dimension of the implementation's matrix, and checks that the complex the implementation
+    built satisfies the hypotheses `WF` of the theorems (the model decides it).
 """
 import copy
 import glob
@@ -220,6 +223,16 @@ def n_components(S):
     return len({find(n) for n in S.nodes})
 
 
+def n_components_xgi(S):
+    """`xgi.number_connected_components` of the 1-skeleton (nodes + simplices with two members)"""
+    H = xgi.Hypergraph()
+    H.add_nodes_from(S.nodes)
+    for ms in S.edges.members():
+        if len(ms) == 2:
+            H.add_edge(list(ms))
+    return int(xgi.number_connected_components(H))
+
+
 def evaluate(rec, xs_rng=None):
     """build the complex, call the implementation for every order, evaluate the C13 clauses.
     returns (requests, impl_results, failures[(site, class, detail, k)], info)"""
@@ -330,8 +343,20 @@ def evaluate(rec, xs_rng=None):
             if k == 0:
                 ker = L.shape[0] - rank_exact(mat(L))
                 nc = n_components(S)
+                res["ker"], res["ncomp"] = ker, nc
                 if ker != nc:
                     fails.append(("hodge_laplacian", "kernel-L0-vs-components", f"dim ker L_0 = {ker}, components = {nc}", k))
+                try:
+                    ncx = n_components_xgi(S)
+                except Exception as ex:  # noqa  (never silent; the count is then simply not available)
+                    ncx = None
+                    res["ncomp_xgi_exc"] = type(ex).__name__
+                res["ncomp_xgi"] = ncx
+                if ncx is not None and ker != ncx:
+                    fails.append(("hodge_laplacian", "kernel-L0-vs-xgi-components",
+                                  f"dim ker L_0 = {ker}, xgi.number_connected_components(1-skeleton) = {ncx}", k))
+        if k == 0 and L.shape[0] == 0:
+            res["ker"], res["ncomp"], res["ncomp_xgi"] = 0, n_components(S), None
     info = {"dim": dim, "n_nodes": len(nodes), "n_simplices": len(members), "labels": sorted({type(n).__name__ for n in nodes})}
     return reqs, impls, fails, info
 
@@ -381,7 +406,7 @@ def shrink(rec, still_fails, budget=150):
 
 
 def strip(r):
-    return {k: v for k, v in r.items() if k not in ("wf", "exc")}
+    return {k: v for k, v in r.items() if k not in ("wf", "exc", "ker", "ncomp", "ncomp_xgi", "ncomp_xgi_exc")}
 
 
 def process(ctx, recipes, name):
@@ -437,6 +462,20 @@ def process(ctx, recipes, name):
         if strip(r) != strip(m):
             dis.append((rec, q, r, m, "matrix"))
             ctx.stats["disagree:" + q["f"]] += 1
+        elif q["f"] == "hodge_laplacian" and q["order"] == 0 and m.get("out") == "ok":
+            # the proved count (ker_L0_finrank: dim ker L_0 = nComponents) against the implementation's exact kernel
+            # dimension, the harness union-find and xgi.number_connected_components of the 1-skeleton
+            mc = m.get("ncomp")
+            if not isinstance(mc, int):
+                raise Infra(f"model C13 did not report ncomp for order 0: {json.dumps(m)[:200]}")
+            ctx.stats["ncomp-compared"] += 1
+            ctx.stats["ncomp:%s" % (mc if mc < 4 else "4+")] += 1
+            others = {k2: r.get(k2) for k2 in ("ker", "ncomp", "ncomp_xgi") if r.get(k2) is not None}
+            if r.get("ncomp_xgi_exc"):
+                ctx.stats["ncomp-xgi-raised:" + r["ncomp_xgi_exc"]] += 1
+            if "ker" not in others or "ncomp" not in others or any(v != mc for v in others.values()):
+                dis.append((rec, q, {k2: r.get(k2) for k2 in ("ker", "ncomp", "ncomp_xgi")}, {"ncomp": mc}, "components"))
+                ctx.stats["disagree:ncomp"] += 1
     if dis:
         ctx.extra.setdefault("disagreements", [])
         for rec, q, r, m, why in dis[:5]:
@@ -527,8 +566,9 @@ def run(ctx):
         "theorems assume WF (ids unique, members duplicate-free nodes, no empty simplex, distinct member sets, downward closed); "
         "the driver decides WF on every complex the real constructor produced and the check fails if it does not hold",
         "numpy zeros / item assignment / transpose / @ / + are modelled as exact integer matrix operations",
-        "dim ker L_0 = number of components is checked on the implementation by exact rank over fractions; in Lean only the "
-        "characterisation ker L_0 = {x constant along every 1-simplex} is proved",
+        "dim ker L_0 = number of connected components is proved for the model's L_0 over every ordered field (ker_L0_finrank, "
+        "with the component count nComponents the driver reports); on the implementation it is checked by exact rank over "
+        "fractions against a union-find, xgi.number_connected_components of the 1-skeleton and the model's count",
     ]
     return finish(ctx, trusted_base=TRUSTED_COMMON + [
         "Python's list.sort(key=…) is a stable sort (model: stable insertion sort by the same key); itertools.combinations order = `combs`",
